@@ -23,7 +23,7 @@ def valOfSexp : Sexp → Option Val
 def armOfSexp : Sexp → Option (Ty × Bool)
   | .list [.atom "lit", .atom n] =>
     match n.toInt? with
-    | some k => some (.refine (if k < 0 then T0.iInt else T0.iNat) (.eq k), true)
+    | some k => if k < 0 then none else some (.refine T0.iNat (.eq k), true)   -- negative literal arms: not modelled
     | none => none
   | sx => (tyOfSexp sx).map (fun t => (t, false))
 
